@@ -135,7 +135,7 @@ def generate(ctx):
             return True
         if m[0] == "sub" and m[2][0] in ("bv",):
             m = m[1]
-            return m[0] == "call" and m[1][0] == "attr" and m[1][2] == "repeat" and m[1][1] == ("sub", disc, ("attr", S("np"), "newaxis")) and dict(m[3]).get("axis") == X.const(0)
+            return m[0] == "call" and m[1][0] == "attr" and m[1][2] == "repeat" and m[1][1] == ("sub", disc, ("attr", S("np"), "newaxis")) and X.arg(m, 1, "axis") == X.const(0)
         return False
 
     for conds, args, kw in hits["gaussian_mask_2d"]:
